@@ -128,8 +128,15 @@ BIGL(z) == {BigAlt(n, o, st) : n \in {9, 17, 33, 65, 70}, o \in {0, 40}, st \in 
            \cup {Cap(BigAlt(n, 3, 7)) : n \in {9, 33, 65}}
            \cup {Cat(BigAlt(n, 11, 1), Plus(Cls({sa,sb}), TRUE)) : n \in {9, 33}}
 
+(* ---- one-pass shapes: anchored, captures, alternatives that share their first symbol or their continuation ---- *)
+OPAtoms == {Lit(sa), Cls({sa,sb}), Cat(Cap(Emp), Lit(sa)), Cap(Lit(sa)), Cat(Cap(Emp), Cls({sa,sb})), Quest(Cap(Lit(sa)), TRUE)}
+OPTails == {Emp, Lit(sc), Cap(Lit(sc)), Quest(Cap(Lit(sc)), TRUE), Alt(Cap(Lit(sb)), Lit(sc)), Star(Cap(Lit(sc)), FALSE)}
+OP(z) == {Cat(Look("bot"), Cat(Alt(p, q), t)) : p \in OPAtoms, q \in OPAtoms, t \in OPTails}
+         \cup {Cat(Look("bot"), Cat(Alt(p, q), Cat(t, Look("eot")))) : p \in OPAtoms, q \in OPAtoms, t \in OPTails}
+
 FamilySet(f) ==
   CASE f = "BIG" -> BIGL(0)
+    [] f = "OP"  -> OP(0)
     [] f = "LIT" -> LIT(0) \cup LITF(0)
     [] f = "REV" -> SUF(0) \cup INN(0) \cup SET(0) \cup ML(0)
     [] f = "ANC" -> ANC(0)
@@ -140,7 +147,7 @@ FamilySet(f) ==
 
 G2Base(f) == SetToSeq(Close(CASE f = "G2a" -> G2aAtoms [] f = "G2m" -> G2mAtoms [] f = "G2u" -> G2uAtoms [] f = "G2x" -> G2xAtoms, f # "G2u"))
 IsG2(f) == f \in {"G2a","G2m","G2u","G2x"}
-FamilyNames == <<"G2a","G2m","G2u","G2x","LIT","REV","ANC","CC","DIG","CAP","U8","BIG">>
+FamilyNames == <<"G2a","G2m","G2u","G2x","LIT","REV","ANC","CC","DIG","CAP","U8","BIG","OP">>
 
 (* --------------------------- haystack alphabets -------------------------- *)
 \* fold partners present in the table
